@@ -34,9 +34,11 @@ type C38Case struct {
 var internStrings = []string{
 	"", "a", "ab", "abcde", "a.b", "x_1", "Z9", // inline
 	"abcdef", "foo.", "a.b.", "has space", "hello.world", "longer_string_1", "longer_string_2", "pkg.Message", "pkg.Message.field", // stored
+	"\u00f1", "C1", ".\xae", "\xc3\xb1x", "a\x80", "\xff", // short, but not in the inline alphabet: stored (and their 7-bit look-alikes)
 }
 
 var internHookPoints = []string{
+	"auto.",
 	"n.intern.miss", "n.query.load", "n.query.id", "n.slow.los", "n.slow.append", "n.slow.commit",
 	"l.load.mid", "l.append.reserved", "l.fast.write", "l.fast.len", "l.grow.ptr", "l.grow.cap", "l.grow.len", "r.op",
 }
